@@ -25,18 +25,18 @@ type CVal struct {
 }
 
 type CEnv struct {
-	e      *Enc
-	vars   map[string]CVal
-	st     *State
-	old    *State
-	pkg    *types.Package
-	frame  *Frame          // for resolving Go locals in invariants
-	at     *ssa.BasicBlock // loop header the invariant belongs to
-	phis   map[string]CVal // loop-carried variables (override)
-	lets   []*LetDef
-	errs   *[]string
-	inOld  bool
-	depth  int
+	e     *Enc
+	vars  map[string]CVal
+	st    *State
+	old   *State
+	pkg   *types.Package
+	frame *Frame          // for resolving Go locals in invariants
+	at    *ssa.BasicBlock // loop header the invariant belongs to
+	phis  map[string]CVal // loop-carried variables (override)
+	lets  []*LetDef
+	errs  *[]string
+	inOld bool
+	depth int
 }
 
 func (c *CEnv) fail(format string, args ...any) CVal {
